@@ -1,0 +1,76 @@
+//go:build verif
+
+package prefix
+
+import (
+	"fmt"
+	"sort"
+	"sync"
+	"sync/atomic"
+)
+
+// Verification hooks (build tag verif). setupPrefix returns a bound method, so the
+// only way to find the *Handler behind it is to see it when Handle is entered.
+var (
+	verifCaptureMu sync.Mutex
+	verifCapturing atomic.Bool
+	verifCaptured  *Handler
+)
+
+func verifSeen(h *Handler) {
+	if verifCapturing.Load() {
+		verifCaptured = h
+	}
+}
+
+// VerifCapture runs f (which must call the handler of interest exactly once, with a
+// request that is dropped before touching state, e.g. one without a client id) and
+// returns the *Handler that was entered.
+func VerifCapture(f func()) *Handler {
+	verifCaptureMu.Lock()
+	defer verifCaptureMu.Unlock()
+	verifCaptured = nil
+	verifCapturing.Store(true)
+	defer verifCapturing.Store(false)
+	f()
+	return verifCaptured
+}
+
+// VerifState is a canonical dump of the mutable state of an instance.
+type VerifState struct {
+	Leases []string // sorted "hex(clientkey)=prefix,prefix,..." in record order
+	Bits   []uint
+}
+
+type verifBitser interface{ VerifBits() []uint }
+
+// VerifDump returns the state of the instance; takes the handler lock.
+func (h *Handler) VerifDump() VerifState {
+	h.Lock()
+	defer h.Unlock()
+	var s VerifState
+	for k, ls := range h.Records {
+		e := fmt.Sprintf("%x=", k)
+		for i, l := range ls {
+			if i > 0 {
+				e += ","
+			}
+			e += l.Prefix.String()
+		}
+		s.Leases = append(s.Leases, e)
+	}
+	sort.Strings(s.Leases)
+	if b, ok := h.allocator.(verifBitser); ok {
+		s.Bits = b.VerifBits()
+	}
+	return s
+}
+
+// VerifLocked reports whether the handler lock is currently held.
+func (h *Handler) VerifLocked() bool {
+	if h.TryLock() {
+		h.Unlock()
+		return false
+	}
+	return true
+}
